@@ -14,11 +14,11 @@ def to_coq(cases):
     body, names = [], []
     for c in cases:
         n = c["id"]
-        body.append("Definition k%d := {| k_api := %s; k_redir := %s; k_status := %d; k_loc := %s; k_default := %s; k_suffix := %s |}." % (
-            n, "true" if c["api"] else "false",
-            # the carry flows give the target to the first step only: the judged (last) request carries none
-            I.b("" if c["flow"].endswith("carry") else c["redir"]), c["status"], I.b(c["location"]), I.b(c["default"]),
-            I.b(c.get("suffix", ""))))
+        body.append("Definition k%d := {| k_api := %s; k_redir := %s; k_status := %d; k_loc := %s; k_default := %s; k_suffix := %s; k_optional := %s |}." % (
+            n, "true" if c["api"] else "false", I.b(c["redir"]), c["status"], I.b(c["location"]), I.b(c["default"]),
+            I.b(c.get("suffix", "")),
+            # the carry flows give the target to the first step only, the body flow (API mode) puts it into the JSON body
+            "true" if (c["flow"].endswith("carry") or (c["flow"] == "passwordform" and c["api"])) else "false"))
         body.append("Definition r%d := Eval vm_compute in c15_check %d k%d." % (n, n, n))
         names.append("r%d" % n)
     return HEAD + I.header() + "\n" + "\n".join(body) + vlib.results_footer(names)
